@@ -1,0 +1,24 @@
+//go:build verif
+
+// Contracts for the deductive verifier under /verif (comment-only file).
+package loader
+
+// funcNameParts splits "pkg.F[go.shape.int]" into "pkg.F", "[...]", "" (the way the Go
+// linker records instantiated generics); names without brackets are returned whole.
+//@ func funcNameParts props C10,C07
+//@   ensures len(r0) <= len(name) && len(r2) <= len(name) && (len(r1) == 0 || len(r1) == 5)
+//@   loop 0: invariant i >= 0 && i < len(name) && j < len(name) && j >= i
+//@   loop 0: decreases j
+
+// makeFuncnameTab (C10: the function-name table the runtime reads for tracebacks and
+// for FuncForPC): offs has one entry per function; as long as the table fits the
+// format's 32-bit offsets, entry i is the offset in tab of a NUL-terminated name that
+// starts right after the previous terminator, i.e. the running offset never drifts from
+// the bytes actually appended.
+//@ func makeFuncnameTab props C10,C09
+//@   ensures len(offs) == len(funcs) && len(tab) >= 1 && tab[len(tab) - 1] == 0
+//@   ensures len(tab) < 2147483648 ==> (forall k int :: (0 <= k && k < len(funcs)) ==> (1 <= offs[k] && int(offs[k]) < len(tab) && tab[int(offs[k]) - 1] == 0))
+//@   loop 0: invariant -1 <= rangeindex && rangeindex < len(funcs) && same(funcs, funcs0)
+//@   loop 0: invariant offset == len(tab) && len(tab) >= 1 && tab[len(tab) - 1] == 0 && fresh(tab)
+//@   loop 0: invariant len(offs) == len(funcs) && fresh(offs) && base(offs) != base(tab)
+//@   loop 0: invariant len(tab) < 2147483648 ==> (forall k int :: (0 <= k && k <= rangeindex) ==> (1 <= offs[k] && int(offs[k]) < len(tab) && tab[int(offs[k]) - 1] == 0))
